@@ -388,6 +388,129 @@ func c20Cases(quick bool) []c20Case {
 			}
 		})
 	}
+	// find-one-and-modify calls in every combination of their options, with updates that change the document, leave it
+	// as it is, or are rejected, on filters that match and that match nothing
+	type famUpdate struct {
+		name string
+		u    bson.D
+	}
+	famUpdates := []famUpdate{
+		{"effective $inc", bD("$inc", bD("n", int32(1)))},
+		{"$set to the stored value", bD("$set", bD("a", int32(1)))},
+		{"$unset of a missing field", bD("$unset", bD("nope", ""))},
+		{"$addToSet of a present element", bD("$addToSet", bD("arr", int32(2)))},
+		{"$max below the stored value", bD("$max", bD("n", int32(-5)))},
+		{"$pull of an absent element", bD("$pull", bD("arr", int32(99)))},
+		{"$setOnInsert only", bD("$setOnInsert", bD("s", int32(1)))},
+		{"rejected: $inc on a string", bD("$inc", bD("s", int32(1)))},
+		{"empty update", bD()},
+	}
+	for _, fu := range famUpdates {
+		fu := fu
+		add("driver-find-and-modify-options", true, func() string {
+			return "FindOneAndUpdate / FindOneAndReplace / FindOneAndDelete x returnDocument x upsert x sort x projection x matching/non-matching filter with update: " + fu.name
+		}, func(w *world.World) {
+			for _, filter := range []bson.D{bD("_id", int32(1)), bD("a", int32(1)), bD("_id", int32(404)), bD("a", bD("$gt", int32(100)))} {
+				for _, after := range []bool{false, true} {
+					for _, upsert := range []bool{false, true} {
+						for _, sortSpec := range []bson.D{nil, bD("n", int32(-1))} {
+							for _, proj := range []bson.D{nil, bD("a", int32(1)), bD("arr", bD("$slice", int32(1))), bD("a", int32(0), "n", int32(1))} {
+								_ = w.C("d", "fam").Drop(w.Ctx)
+								c := w.C("d", "fam")
+								_, _ = c.InsertMany(w.Ctx, []interface{}{bD("_id", int32(1), "a", int32(1), "n", int32(1), "arr", bson.A{int32(1), int32(2)}, "s", "x"), bD("_id", int32(2), "a", int32(1), "n", int32(2), "arr", bson.A{}, "s", "y")})
+								rd := options.Before
+								if after {
+									rd = options.After
+								}
+								ou := options.FindOneAndUpdate().SetReturnDocument(rd).SetUpsert(upsert)
+								or := options.FindOneAndReplace().SetReturnDocument(rd).SetUpsert(upsert)
+								od := options.FindOneAndDelete()
+								if sortSpec != nil {
+									ou.SetSort(sortSpec)
+									or.SetSort(sortSpec)
+									od.SetSort(sortSpec)
+								}
+								if proj != nil {
+									ou.SetProjection(proj)
+									or.SetProjection(proj)
+									od.SetProjection(proj)
+								}
+								var out bson.M
+								_ = c.FindOneAndUpdate(w.Ctx, filter, fu.u, ou).Decode(&out)
+								// replacements: identical to the stored document, different, and with another _id
+								_ = c.FindOneAndReplace(w.Ctx, filter, bD("a", int32(1), "n", int32(1), "arr", bson.A{int32(1), int32(2)}, "s", "x"), or).Decode(&out)
+								_ = c.FindOneAndReplace(w.Ctx, filter, bD("a", int32(7)), or).Decode(&out)
+								_ = c.FindOneAndReplace(w.Ctx, filter, bD("_id", int32(9), "a", int32(7)), or).Decode(&out)
+								_ = c.FindOneAndDelete(w.Ctx, filter, od).Decode(&out)
+							}
+						}
+					}
+				}
+			}
+		})
+	}
+	// index management: every ordered pair of definitions from a pool in which names, keys, uniqueness, partial filters and
+	// expiry coincide in every combination, then drops by name and by key
+	type ixDef struct {
+		key     bson.D
+		unique  bool
+		partial bson.D
+		name    string
+		expire  *int32
+	}
+	var ixDefs []ixDef
+	for _, key := range []bson.D{bD("a", int32(1)), bD("a", int32(1), "n", int32(-1))} {
+		for _, unique := range []bool{false, true} {
+			for _, partial := range []bson.D{nil, {}, bD("n", bD("$gte", int32(0)))} {
+				for _, name := range []string{"", "same"} {
+					for _, expire := range []*int32{nil, i32(60)} {
+						ixDefs = append(ixDefs, ixDef{key, unique, partial, name, expire})
+					}
+				}
+			}
+		}
+	}
+	mkModel := func(d ixDef) mongo.IndexModel {
+		o := options.Index()
+		if d.unique {
+			o.SetUnique(true)
+		}
+		if d.partial != nil {
+			o.SetPartialFilterExpression(d.partial)
+		}
+		if d.name != "" {
+			o.SetName(d.name)
+		}
+		if d.expire != nil {
+			o.SetExpireAfterSeconds(*d.expire)
+		}
+		return mongo.IndexModel{Keys: d.key, Options: o}
+	}
+	for fi, first := range ixDefs {
+		fi, first := fi, first
+		add("driver-index-pairs", true, func() string {
+			return fmt.Sprintf("Indexes().CreateOne of definition #%d (key %s unique=%v partial=%s name=%q ttl=%v) followed by every definition of the pool, CreateMany of both, List, DropOne, DropOneWithKey", fi, J(first.key), first.unique, J(first.partial), first.name, first.expire != nil)
+		}, func(w *world.World) {
+			for _, second := range ixDefs {
+				_ = w.C("d", "ix").Drop(w.Ctx)
+				c := w.C("d", "ix")
+				_, _ = c.InsertMany(w.Ctx, []interface{}{bD("_id", int32(1), "a", int32(1), "n", int32(1)), bD("_id", int32(2), "a", int32(2), "n", int32(-1)), bD("_id", int32(3), "a", bson.A{int32(3), int32(3)})})
+				_, _ = c.Indexes().CreateOne(w.Ctx, mkModel(first))
+				_, _ = c.Indexes().CreateOne(w.Ctx, mkModel(second))
+				_, _ = c.Indexes().CreateMany(w.Ctx, []mongo.IndexModel{mkModel(second), mkModel(first)})
+				if cur, err := c.Indexes().List(w.Ctx); err == nil {
+					var specs []bson.M
+					_ = cur.All(w.Ctx, &specs)
+				}
+				_, _ = c.InsertOne(w.Ctx, bD("_id", int32(4), "a", int32(1), "n", int32(5)))
+				_, _ = c.DeleteMany(w.Ctx, bD("a", bD("$gte", int32(2))))
+				_, _ = c.Indexes().DropOneWithKey(w.Ctx, second.key)
+				_, _ = c.Indexes().DropOne(w.Ctx, "same")
+				_, _ = c.Indexes().DropOne(w.Ctx, "_id_")
+				_, _ = c.Indexes().DropAll(w.Ctx)
+			}
+		})
+	}
 	return out
 }
 
@@ -560,7 +683,7 @@ func init() {
 		r.Set("exhaustive", ran == int64(total) && !r.TooMany())
 		r.Set("worker_processes", int64(n))
 		r.Set("samples", []interface{}{map[string]interface{}{"paths": c20Paths()}, map[string]interface{}{"operands": short(J(bson.A(c20W()[:30])), 1500)}})
-		r.Set("rule", "wrong-type-everywhere grammar: every query operator x every operand of a 50-value pool (one value of every supported BSON type, non-finite and extreme numbers, empty containers, nested empties, $-keys, empty keys, 40-fold nesting, a 5000-character string) x 20 paths (empty, dotted oddly, positional, numeric, huge index) on 12 documents (document-, binary- and NaN-valued _id, 32-fold nesting, empty keys) through mongokit.Match; top-level operators and every $jsonSchema keyword x operands; every update operator x operand x path through mongokit.Apply (with/without upsert and array filters), operator values that are not documents, $push/$addToSet modifiers x operands, array filters of every shape; projections, sorts and distinct x operands x paths; bsonkit Get/All/Put/Unset/Increment/Multiply/Push/Pop x operands x paths and Compare/Add/Mul/Mod on all operand pairs; driver-level Find/Count/Distinct/Delete/Update/upsert/FindOneAnd*/Replace/BulkWrite/CreateIndex on a collection holding every document shape, incl. update/replace/delete of documents with document- and binary-valued _id. Every case runs under recover() in a worker process with an address-space limit and a 60 s watchdog; after every engine-level case a probe write must succeed.")
+		r.Set("rule", "wrong-type-everywhere grammar: every query operator x every operand of a 50-value pool (one value of every supported BSON type, non-finite and extreme numbers, empty containers, nested empties, $-keys, empty keys, 40-fold nesting, a 5000-character string) x 20 paths (empty, dotted oddly, positional, numeric, huge index) on 12 documents (document-, binary- and NaN-valued _id, 32-fold nesting, empty keys) through mongokit.Match; top-level operators and every $jsonSchema keyword x operands; every update operator x operand x path through mongokit.Apply (with/without upsert and array filters), operator values that are not documents, $push/$addToSet modifiers x operands, array filters of every shape; projections, sorts and distinct x operands x paths; bsonkit Get/All/Put/Unset/Increment/Multiply/Push/Pop x operands x paths and Compare/Add/Mul/Mod on all operand pairs; driver-level Find/Count/Distinct/Delete/Update/upsert/FindOneAnd*/Replace/BulkWrite/CreateIndex on a collection holding every document shape, find-one-and-modify calls in every combination of returnDocument x upsert x sort x projection x matching/non-matching filter x effective/no-op/rejected updates and identical/different replacements, every ordered pair of 48 index definitions (coinciding names, keys, uniqueness, partial filters, expiry) through CreateOne/CreateMany/List/DropOne/DropOneWithKey, incl. update/replace/delete of documents with document- and binary-valued _id. Every case runs under recover() in a worker process with an address-space limit and a 60 s watchdog; after every engine-level case a probe write must succeed.")
 		r.Assume("panics whose message starts with 'lungo: ' (documented: unsupported driver options, nil arguments) are excluded", "BSON types lungo does not support at all (MinKey, MaxKey, JavaScript, Symbol, Undefined, DBPointer) are not part of the operand pool")
 		if ran < 20000 {
 			r.Broken("vacuity: only %d cases ran", ran)
